@@ -11,8 +11,9 @@
      keywords  amd64 x86 (stable)  ~amd64 ~x86 (testing)  -amd64 -* (broken markers of a package)
                accept tokens additionally  **  *  ~*
    A configuration cfg:
-     arch, nodes (profile nodes, parents first):
-              [akw: ACCEPT_KEYWORDS tokens, alic: ACCEPT_LICENSE tokens,
+     arch, nodes (profile nodes, the last one is the configured profile):
+              [parents: indices of earlier nodes in `parent` file order,
+               akw: ACCEPT_KEYWORDS tokens, alic: ACCEPT_LICENSE tokens,
                mask, unmask: [neg: scope names, pos: scope names]  (package.mask / package.unmask),
                pakw: entries [sc, toks] of package.accept_keywords]
      conf [akw, alic]                         the user's make.conf
@@ -36,18 +37,22 @@ TestingOf == ("amd64" :> "~amd64") @@ ("x86" :> "~x86")
 (* ------------------------------------ masks ------------------------------------ *)
 \* a profile node removes the atoms it negates from what its parents (and, for masks, the
 \* repository) contributed, then adds its own
+\* (the nodes are taken in STACK order, Incremental!StackSeq: a node inherited along several
+\*  paths is applied once per path)
 NodeFold(cfg, start, Pick(_)) ==
-    LET f[k \in 0..Len(cfg.nodes)] == IF k = 0 THEN start
-                                      ELSE (f[k - 1] \ Pick(cfg.nodes[k]).neg) \cup Pick(cfg.nodes[k]).pos
-    IN f[Len(cfg.nodes)]
+    LET st == StackSeq(cfg.nodes)
+        f[k \in 0..Len(st)] == IF k = 0 THEN start
+                               ELSE (f[k - 1] \ Pick(cfg.nodes[st[k]]).neg) \cup Pick(cfg.nodes[st[k]]).pos
+    IN f[Len(st)]
 Masks(cfg)   == NodeFold(cfg, cfg.repo.masks, LAMBDA n : n.mask) \cup cfg.user.mask
 Unmasks(cfg) == NodeFold(cfg, {}, LAMBDA n : n.unmask) \cup cfg.user.unmask
 MaskOK(cfg, p) == ~Hits(Masks(cfg), p) \/ Hits(Unmasks(cfg), p)
 
 (* ----------------------------------- keywords ----------------------------------- *)
 NodeStream(cfg, Pick(_)) ==
-    LET f[k \in 0..Len(cfg.nodes)] == IF k = 0 THEN <<>> ELSE f[k - 1] \o Pick(cfg.nodes[k])
-    IN f[Len(cfg.nodes)]
+    LET st == StackSeq(cfg.nodes)
+        f[k \in 0..Len(st)] == IF k = 0 THEN <<>> ELSE f[k - 1] \o Pick(cfg.nodes[st[k]])
+    IN f[Len(st)]
 \* ACCEPT_KEYWORDS: one incremental stream, profile first then the user's; ARCH is always
 \* accepted and accepting ~k accepts k as well
 AcceptGlobal(cfg) == LET A == Fold(NodeStream(cfg, LAMBDA n : n.akw) \o cfg.conf.akw, {})
@@ -98,6 +103,7 @@ Visible(cfg, p) == MaskOK(cfg, p) /\ KeywordOK(cfg, p) /\ LicenseOK(cfg, p)
 NoBroken(ts) == ~HasIncomplete(ts, LicIncomplete)
 InDomain(cfg) ==
     /\ cfg.arch \in Stable
+    /\ WellStacked(cfg.nodes)
     /\ \A k \in DOMAIN cfg.nodes : cfg.nodes[k].mask.neg \cap cfg.nodes[k].mask.pos = {}
                                   /\ cfg.nodes[k].unmask.neg \cap cfg.nodes[k].unmask.pos = {}
     /\ \A p \in Pkgs : NoBroken(LicStream(cfg, p)) /\ LicStream(cfg, p) # <<>>
